@@ -509,6 +509,8 @@ class Translator:
         self.fail('statement', s)
 
     def function(self, fd):
+        if getattr(fd, 'decorator_list', None):
+            self.fail('decorated function', fd)
         a = fd.args
         if a.kwonlyargs or a.kwarg or a.posonlyargs:
             self.fail('parameters', fd)
@@ -751,6 +753,8 @@ class SymTranslator:
         self.fail('statement', s)
 
     def function(self, fd, is_method=True):
+        if getattr(fd, 'decorator_list', None):
+            self.fail('decorated function', fd)
         a = fd.args
         if a.kwonlyargs or a.kwarg or a.posonlyargs or a.vararg or a.defaults:
             self.fail('parameters', fd)
@@ -923,6 +927,8 @@ class OrchTranslator:
         self.fail('statement', s)
 
     def function(self, fd):
+        if getattr(fd, 'decorator_list', None):
+            self.fail('decorated function', fd)
         a = fd.args
         if a.kwonlyargs or a.kwarg or a.posonlyargs or a.vararg or a.defaults:
             self.fail('parameters', fd)
@@ -1123,6 +1129,8 @@ class ObjTranslator:
         self.fail('statement', st)
 
     def function(self, fd):
+        if getattr(fd, 'decorator_list', None):
+            self.fail('decorated function', fd)
         a = fd.args
         if a.kwonlyargs or a.kwarg or a.posonlyargs or a.vararg or a.defaults:
             self.fail('parameters', fd)
@@ -1239,6 +1247,8 @@ class CacheTranslator:
         self.fail('statement', st)
 
     def function(self, fd):
+        if getattr(fd, 'decorator_list', None):
+            self.fail('decorated function', fd)
         a = fd.args
         if a.kwonlyargs or a.kwarg or a.posonlyargs or a.vararg or a.defaults:
             self.fail('parameters', fd)
@@ -1398,6 +1408,8 @@ class RouteTranslator:
         self.fail('statement', st)
 
     def function(self, fd, is_method):
+        if getattr(fd, 'decorator_list', None):
+            self.fail('decorated function', fd)
         a = fd.args
         if a.kwonlyargs or a.kwarg or a.posonlyargs or a.vararg:
             self.fail('parameters', fd)
@@ -1557,6 +1569,8 @@ class StepTranslator:
         self.fail('statement', st)
 
     def function(self, fd):
+        if getattr(fd, 'decorator_list', None):
+            self.fail('decorated function', fd)
         a = fd.args
         if a.kwonlyargs or a.kwarg or a.posonlyargs or a.vararg or a.defaults or [p.arg for p in a.args] != ['self']:
             self.fail('parameters', fd)
@@ -1726,6 +1740,8 @@ class CtorTranslator:
         self.fail('statement', st)
 
     def function(self, fd, is_method=True):
+        if getattr(fd, 'decorator_list', None):
+            self.fail('decorated function', fd)
         a = fd.args
         if a.kwonlyargs or a.kwarg or a.posonlyargs:
             self.fail('parameters', fd)
